@@ -92,3 +92,24 @@ def random_sdesc(rng, max_s=3, max_t=3, p_excl=0.4, p_override=0.3):
                 uniq.append(p)
         pats = uniq
     return sdesc(src, tgt, excl=excl, pats=pats, mcp=rng.choice([0, 0, 0, 1, 2, 3]))
+
+
+HIGH = [  # degrees above 2 (the default limit on parallel connections then follows the largest finite degree)
+    {'dl': [], 'dmin': 0, 'dmax': 3}, {'dl': [], 'dmin': 1, 'dmax': 4}, {'dl': [0, 1, 2, 3], 'dmin': 0, 'dmax': 0},
+    {'dl': [3], 'dmin': 0, 'dmax': 0}, {'dl': [1, 3], 'dmin': 0, 'dmax': 0}, {'dl': [], 'dmin': 2, 'dmax': 3},
+]
+
+
+def high_degree_family():
+    """Every 1x1 and a slice of the 2x1 / 1x2 settings over the high-degree alphabet with repetition allowed (and one
+    no-repetition partner), without explicit parallel limit."""
+    out = []
+    nodes = [conn(a, True) for a in HIGH] + [conn(HIGH[0], False)]
+    for a in nodes:
+        for b in nodes:
+            out.append(sdesc([a], [b]))
+    for a in nodes[:4]:
+        for b in nodes[:4]:
+            out.append(sdesc([a, conn(ALPHABET[2], True)], [b]))
+            out.append(sdesc([a], [b, conn(ALPHABET[6], True)], pats=all_patterns(1, 2, [False], [False, True])))
+    return out
